@@ -78,10 +78,14 @@ Definition slice_positions (d : nat) (start stop step : option Z) : list nat :=
   let count := if e <=? s then 0 else (e - s + st - 1) / st in
   map (fun k => Z.to_nat (s + Z.of_nat k * st)) (seq 0 (Z.to_nat count)).
 
-Definition norm_ix (d : nat) (i : ix) : ixres nix :=
+(* `lenient`: the lists broadcast to length 0 (some list is empty); NumPy then does not
+   bounds-check the entries of the lists (nothing is selected) *)
+Definition norm_ix (lenient : bool) (d : nat) (i : ix) : ixres nix :=
   match i with
   | IInt z => match norm_int d z with Some n => IOk (NInt n) | None => IErr EIndex end
-  | IList l => match norm_list d l with Some ns => IOk (NList ns) | None => IErr EIndex end
+  | IList l =>
+      if lenient then IOk (NList (repeat 0%nat (length l)))
+      else match norm_list d l with Some ns => IOk (NList ns) | None => IErr EIndex end
   | ISlice start stop step =>
       match step with
       | Some k => if k <=? 0 then IErr EValue else IOk (NSlice (slice_positions d start stop step))
@@ -92,13 +96,13 @@ Definition norm_ix (d : nat) (i : ix) : ixres nix :=
 Local Close Scope Z_scope.
 
 (* normalise a whole index expression against a shape (same lengths) *)
-Fixpoint norm_all (shape : list nat) (item : list ix) : ixres (list nix) :=
+Fixpoint norm_all (lenient : bool) (shape : list nat) (item : list ix) : ixres (list nix) :=
   match shape, item with
   | [], [] => IOk []
   | d :: sh, i :: it =>
-      match norm_ix d i with
+      match norm_ix lenient d i with
       | IErr e => IErr e
-      | IOk n => match norm_all sh it with IErr e => IErr e | IOk ns => IOk (n :: ns) end
+      | IOk n => match norm_all lenient sh it with IErr e => IErr e | IOk ns => IOk (n :: ns) end
       end
   | _, _ => IErr EIndex
   end.
@@ -186,15 +190,52 @@ Definition np_index_n (items : list nix) : ixres (list nat * list (list nat)) :=
       end
   end.
 
+(* do the lists of the item broadcast to length 0 ? (a mismatch is found later, by bcast_len) *)
+Fixpoint raw_bcast (item : list ix) (acc : option nat) : option (option nat) :=
+  match item with
+  | [] => Some acc
+  | IList l :: r =>
+      match acc with
+      | None => raw_bcast r (Some (length l))
+      | Some a => match bc a (length l) with Some c => raw_bcast r (Some c) | None => None end
+      end
+  | _ :: r => raw_bcast r acc
+  end.
+
+Definition lenient_item (item : list ix) : bool :=
+  match raw_bcast item None with Some (Some O) => true | _ => false end.
+
 Definition full_slice : ix := ISlice None None None.
+
+(* Which error wins when several apply (NumPy's order of processing, tied by k_npindex):
+   1. too many indices (IndexError);
+   2. integers and slices, left to right: an out-of-bounds integer (IndexError) or a zero
+      slice step (ValueError), whichever comes first;
+   3. only then the lists: shapes that do not broadcast (IndexError), entries out of bounds
+      (IndexError) - the latter only if the broadcast length is not 0.
+   `basic_error` is phase 2. *)
+Fixpoint basic_error (shape : list nat) (item : list ix) : option ixerr :=
+  match shape, item with
+  | d :: sh, i :: it =>
+      match i with
+      | IList _ => basic_error sh it
+      | _ => match norm_ix false d i with IErr e => Some e | IOk _ => basic_error sh it end
+      end
+  | _, _ => None
+  end.
 
 (* array[item] for an array of the given shape *)
 Definition np_index (shape : list nat) (item : list ix) : ixres (list nat * list (list nat)) :=
   if Nat.ltb (length shape) (length item) then IErr EIndex       (* too many indices *)
   else
-    match norm_all shape (item ++ repeat full_slice (length shape - length item)) with
-    | IErr e => IErr e
-    | IOk items => np_index_n items
+    let item' := item ++ repeat full_slice (length shape - length item) in
+    match basic_error shape item' with
+    | Some e => IErr e
+    | None =>
+        match norm_all (lenient_item item') shape item' with
+        | IErr e => IErr e
+        | IOk items => np_index_n items
+        end
     end.
 
 (* np.isscalar(array[item]) for an object array *)
